@@ -37,6 +37,7 @@ STREAM = {
     "C04": ("c04", ["--sweep", "--cases", 400, "--cost", 500000], ["--sweep", "--cases", 3000, "--cost", 10000000, "--bigshare", 20]),
     "C08": ("c08", ["--counts", "--cases", 700, "--cost", 1000000], ["--counts", "--cases", 6000, "--cost", 20000000, "--bigshare", 20]),
     "C09": ("c09", ["--cases", 900, "--cost", 1500000], ["--cases", 9000, "--cost", 30000000, "--bigshare", 40]),
+    "C05": ("c05", ["--cases", 400, "--cost", 500000], ["--cases", 4000, "--cost", 8000000]),
     "C14": ("c14", ["--cases", 300, "--cost", 300000], ["--cases", 3000, "--cost", 5000000]),
     "C13": ("c13", ["--cases", 400, "--cost", 400000], ["--cases", 3000, "--cost", 6000000, "--bigshare", 10]),
 }
@@ -279,6 +280,12 @@ def check_par(prop, tier, seed):
     rp, sample = par_replay(tier, scenarios_for(prop, tier), prop, res, prop)
     rnd = par_random(tier, seed, faulty, prop + "rnd", res, prop, 2000 if tier == "thorough" else 300)
     free = par_free(tier, seed, res, prop)
+    stcov = None
+    if prop == "C05":
+        # byte equality of the three ways of producing a stream over the input corpus (incl. long streams)
+        st = check_stream(prop, tier, seed, props="C05,C01,C04", accept=["C05", "C01", "C04"])
+        res.failures += st.failures
+        stcov = st.coverage
     res.coverage = dict(
         states=states + rp["graph_states"], transitions=trans + rp["edges"],
         traces_validated_against_impl=rp["paths"] - rp["divergences"] + rnd["accepted"],
@@ -296,6 +303,13 @@ def check_par(prop, tier, seed):
              "(W, N, fault position, #bad blocks, eof-fill) classes of (3) and (4)",
         samples=[sample] + rnd["samples"][:1] + free.get("samples", [])[:1],
         exhaustive=False)
+    if stcov:
+        res.coverage["cross_mode_streams"] = stcov["evaluations"]
+        res.coverage["cross_mode_streams_accepted"] = stcov["traces_validated_against_impl"]
+        res.coverage["traces_validated_against_impl"] += stcov["traces_validated_against_impl"]
+        res.coverage["states"] += stcov["states"]
+        res.coverage["transitions"] += stcov["transitions"]
+        res.coverage["evaluations"] += stcov["evaluations"]
     res.assumptions = [
         "the observation points in par.rs are placed at every blocking operation (a thread that blocks elsewhere is reported as no-progress)",
         "the single-thread entry point is the reference for bytes and error kind",
@@ -544,10 +558,70 @@ def check_c19(prop, tier, seed):
     return res
 
 
+# --------------------------------------------------------------------------- C18 / C08 (constructed components)
+def run_comp(prop, tier, seed, prefixes, res):
+    """Constructor grids -> TraceComp.tla; failures whose message starts with one of `prefixes`."""
+    import re, shutil
+    out = os.path.join(vlib.WORK, f"{prop}-{tier}-comp")
+    shutil.rmtree(out, ignore_errors=True)
+    summ = vlib.run_fv(["comp", "--tier", tier, "--seed", seed, "--out", out, "--shards", vlib.JVMS], timeout=3000)
+    verdicts, states, trans, _ = vlib.run_trace_shards("TraceComp.tla", "TraceComp.cfg", summ["files"], tagp=prop + "c", timeout=3000)
+    if len(verdicts) != summ["events"]:
+        raise ToolError(f"{summ['events']} constructor calls driven but {len(verdicts)} verdicts")
+    ok, seen = 0, set()
+    for cid, (v, msgs) in sorted(verdicts.items()):
+        mine = sorted(m for m in msgs if m.startswith(tuple(x + ":" for x in prefixes)))
+        if not mine:
+            ok += 1
+            continue
+        # key: the failing call site = constructor name + the kind of complaint, digits normalised
+        m0 = mine[0]
+        ctor = re.search(r"([A-Za-z]+::new[a-z_]*)\(", " ".join(mine))
+        key = f"{prop} {ctor.group(1) if ctor else cid.split('-')[0]}: " + re.sub(r"\d+", "#", m0.split(": ", 1)[1] if ": " in m0 else m0)[:200]
+        if key in seen:
+            continue
+        seen.add(key)
+        res.failures.append(dict(key=key, what=f"{cid}: " + " ;; ".join(mine)[:500], name=cid,
+                                 replay=dict(property=prop, kind="comp", tier=tier, seed=seed, id=cid, what=mine),
+                                 trace_lines=[l for f in summ["files"] for l in open(f) if f'"id":"{cid}"' in l]))
+    return summ, states, trans, ok
+
+
+def check_comp(prop, tier, seed):
+    res = Result()
+    summ, states, trans, ok = run_comp(prop, tier, seed, [prop], res)
+    res.coverage = dict(states=states, transitions=trans, traces_validated_against_impl=ok, evaluations=summ["events"],
+                        distinct_nontrivial=summ["classes"], outcomes=summ["outcomes"],
+                        rule="grids of consistent and inconsistent arguments for every public constructor (Residual, QuantizedParameters, Constant, "
+                             "Verbatim, FixedLpc, Lpc, FrameHeader incl. re-labelled offsets, Frame, StreamInfo, unknown metadata); each call under "
+                             "catch_unwind; constructed components are verified, counted, written to MemSink<u8> and MemSink<u64>, parsed back by the "
+                             "library and parsed independently by FlacFormat.tla in TLC, which recomputes the size from the structure. distinct = "
+                             "distinct (constructor, argument class) signatures",
+                        samples=[dict(note="see rule; e.g. Residual::new(order=2, block=64, warmup=2, 1 params, ...) [too few rice parameters]")],
+                        exhaustive=False)
+    res.assumptions = ["argument grids are hand-picked boundary classes, not exhaustive", "identity after parsing = identical re-serialisation"]
+    return res
+
+
+def check_c08(prop, tier, seed):
+    res = check_stream(prop, tier, seed)
+    summ, states, trans, ok = run_comp(prop, tier, seed, [prop], res)
+    res.coverage["states"] += states
+    res.coverage["transitions"] += trans
+    res.coverage["traces_validated_against_impl"] += ok
+    res.coverage["constructed_components"] = summ["events"]
+    res.coverage["evaluations"] += summ["events"]
+    res.coverage["distinct_nontrivial"] += summ["classes"]
+    res.coverage["rule"] += "; plus directly constructed components (constructor grids incl. headers with every UTF-8 length class of frame / sample numbers, re-labelled offsets, residuals with quotient sums around 2^32 counted through a counting sink)"
+    return res
+
+
 # --------------------------------------------------------------------------- registry
 CHECKS = {}
 for _p in STREAM:
     CHECKS[_p] = check_stream
+CHECKS["C18"] = check_comp
+CHECKS["C08"] = check_c08
 CHECKS["C07"] = check_c07
 CHECKS["C19"] = check_c19
 CHECKS["C14"] = check_fill
@@ -564,6 +638,10 @@ def replay(prop, path):
         # re-encode the same case with the current working tree and validate it again
         r = check_stream(prop, payload.get("tier", "quick"), payload["seed"], only=payload["case"],
                          outdir=os.path.join(vlib.WORK, f"{prop}-replay"))
+        return r
+    if kind == "comp":
+        r = Result()
+        run_comp(prop, payload.get("tier", "quick"), payload.get("seed", 1), [prop], r)
         return r
     if kind == "cfg07":
         return check_c07(prop, payload.get("tier", "quick"), payload.get("seed", 1))
